@@ -12,7 +12,9 @@ EXPLANATION = (
     'input itself; R3.3 backward crossed composition refuses a bare N/NP cancelled category; R3.4 non-schema '
     'rules return an input, Y\\Y of an input, or a feature-free literal under literal-pinned inputs; R3.5 labels '
     'and head_is_left=True; R3.6 registry complete, dispatch a filter-free fold, no refusal after a successful '
-    'match other than R3.3).  Takes "unification succeeded" to mean the inputs have the patterns\' shape (C06).')
+    'match other than R3.3).  Takes "unification succeeded" to mean the inputs have the patterns\' shape (C06).'
+    ' The dispatch fold also checks what the combinators are applied to (inputs with only nb erased).'
+)
 TRUSTED = ['CPython ast', 'schema table in sa/rules_grammar.py (from the property statement)', 'independent pattern parser sa/symcat.py']
 
 R = {'schema': 'R3.1', 'modifier': 'R3.2', 'restrict': 'R3.3', 'nonschema': 'R3.4', 'labels': 'R3.5', 'complete': 'R3.6'}
